@@ -505,6 +505,7 @@ def make_compositions():
        lambda k: (k.v("x") < k.v("y")) * k.v("x"))
     E2("abs_sub", lambda k: abs(k.S("x") - k.S("y")), ("x", "y"), lambda k: abs(k.v("x") - k.v("y")))
     E2("div_mul", lambda k: (k.S("x") / 3) * k.S("y"), ("x", "y"), lambda k: (k.v("x") // 3) * k.v("y"))
+    E2("div_mul_eq", lambda k: ((k.S("x") / 3) * 3) == k.S("x"), ("x",), lambda k: (((k.v("x") // 3) * 3) == k.v("x")) | True)
     E2("fdiv_add", lambda k: k.S("x") // 3 + k.S("y"), ("x", "y"), lambda k: k.v("x") // 3 + k.v("y"))
     E2("mod_eq", lambda k: (k.S("x") % 3) == k.S("y"), ("x", "y"), lambda k: (k.v("x") % 3) == k.v("y"))
     E2("and_or", lambda k: (k.B("x") & k.B("y")) | k.B("z"), ("x", "y", "z"),
